@@ -3,7 +3,7 @@
 //@ variant: tls DEFS=-DUT_SHAPE_TLS
 //@ variant: null DEFS=-DUT_SHAPE_NULL
 //@ tu: libxcm/tp/tls/xcm_tp_utls.c
-//@ flags: --max-field-sensitivity-array-size 1024
+//@ flags: --max-field-sensitivity-array-size 700
 //@ defs: $DEFS
 //@ enforce: utls_close
 //@ replace: xcm_tp_socket_close xcm_tp_socket_destroy
